@@ -4,7 +4,7 @@ From ClapModel Require Import Base.Bytes Base.Machine Parse.Cmd Help.UsageModel 
 Extraction Language OCaml.
 Separate Extraction
   Cmd.arg_new Cmd.group_new Cmd.cmd_new Cmd.settings_none
-  UsageModel.harg_new UsageModel.hcmd_new UsageModel.cmd_with UsageModel.hset_none UsageModel.len
+  UsageModel.harg_new UsageModel.hcmd_new UsageModel.cmd_with UsageModel.cmd_with_items UsageModel.hset_none UsageModel.len
   UsageModel.h_build_self UsageModel.level_walk UsageModel.s_help
-  HelpModel.render_help HelpModel.render_usage HelpModel.help_at HelpModel.row_key HelpModel.row_col
+  HelpModel.render_help HelpModel.render_help_template HelpModel.render_usage HelpModel.help_at HelpModel.row_key HelpModel.row_col
   BinNums.Z.
